@@ -629,6 +629,12 @@ func (st *Stack) compactRange(first, last int, expiration *LogExpirationConfig) 
 	if err != nil {
 		return false, err
 	}
+	defer func() {
+		// Remove the compacted table if it was not moved into place.
+		if tmpTable != "" {
+			os.Remove(tmpTable)
+		}
+	}()
 
 	lockFileName = st.listFile + ".lock"
 	lockFile, err = os.OpenFile(lockFileName, os.O_EXCL|os.O_CREATE|os.O_WRONLY, 0644)
@@ -651,6 +657,7 @@ func (st *Stack) compactRange(first, last int, expiration *LogExpirationConfig) 
 		if err := os.Rename(tmpTable, destTable); err != nil {
 			return false, err
 		}
+		tmpTable = ""
 	}
 
 	var names []string
